@@ -1879,8 +1879,9 @@ fn eval_assign_update(
     };
 
     let new_value_num = match op {
-        AssignUpdateKind::Add => *var_value_num + *rhs_num,
-        AssignUpdateKind::Subtract => *var_value_num - *rhs_num,
+        // Wrap on overflow, consistent with `+` and `-`.
+        AssignUpdateKind::Add => var_value_num.wrapping_add(*rhs_num),
+        AssignUpdateKind::Subtract => var_value_num.wrapping_sub(*rhs_num),
     };
     env.current_frame_mut()
         .bindings
